@@ -780,18 +780,10 @@ theorem kinv_run : ∀ (ops : List HOp) {h : HSt}, (∀ op, Kinv h.sys op) → F
 
 /-! ### recorded edges join listed (live) operations, along every history -/
 
-/-- operation `o` is listed in `active_operations` -/
-def Listed (s : Sys) (o : Nat) : Prop := ∃ c ∈ s.active, c.id = o
+-- `Listed s o` (∃ c ∈ s.active, c.id = o) and `listed_of_ids` live in Lemmas/C14.lean
 
 /-- both endpoints of every recorded edge are listed operations -/
 def EdgesLive (s : Sys) : Prop := ∀ w b r, HasEdge s.edges w b r → Listed s w ∧ Listed s b
-
-theorem listed_of_ids {s s' : Sys} (h : s'.active.map (·.id) = s.active.map (·.id)) {o : Nat} (hl : Listed s o) :
-    Listed s' o := by
-  obtain ⟨c, hc, hid⟩ := hl
-  have : c.id ∈ s'.active.map (·.id) := by rw [h]; exact List.mem_map.mpr ⟨c, hc, rfl⟩
-  obtain ⟨c', hc', hcc⟩ := List.mem_map.mp this
-  exact ⟨c', hc', hcc.trans hid⟩
 
 theorem listed_start {s : Sys} (o : Nat) (p : Int) {x : Nat} (hl : Listed s x) : Listed (s.start o p).1 x := by
   unfold Sys.start
@@ -1110,7 +1102,9 @@ theorem kinv_exec_other (s : Sys) (op : Nat) (prio : Int) (req : List Nat) (adv 
     generalize advanceCb (q.1.setCtx { q.2.1 with resAcq := true }) { q.2.1 with resAcq := true } adv 1 = a1 at h4 hid4 ⊢
     have hne4 : a1.2.1.id ≠ o := by rw [hid4]; exact hne
     split
-    · exact kinv_execWork_other hne4 h4 adv _
+    · split
+      · exact kinv_execWork_other hne4 h4 adv _
+      · exact kinv_failWith_other hne4 h4 _ _
     · exact kinv_failWith_other hne4 h4 _ _
   · exact kinv_failWith_other hne2 h2 _ _
 
